@@ -134,13 +134,55 @@ func rewrite(path string, src []byte) ([]byte, int, error) {
 	if hasChan {
 		var rerr error
 		usedShim := false
+		// names of struct fields, variables and parameters declared with a channel type in this file
+		chanNames := map[string]bool{}
+		ast.Inspect(f, func(nd ast.Node) bool {
+			switch x := nd.(type) {
+			case *ast.Field:
+				if _, ok := x.Type.(*ast.ChanType); ok {
+					for _, nm := range x.Names {
+						chanNames[nm.Name] = true
+					}
+				}
+			case *ast.ValueSpec:
+				if _, ok := x.Type.(*ast.ChanType); ok {
+					for _, nm := range x.Names {
+						chanNames[nm.Name] = true
+					}
+				}
+			}
+			return true
+		})
+		isChanExpr := func(e ast.Expr) bool {
+			switch x := e.(type) {
+			case *ast.Ident:
+				return chanNames[x.Name]
+			case *ast.SelectorExpr:
+				return chanNames[x.Sel.Name]
+			}
+			return false
+		}
 		astutil.Apply(f, nil, func(c *astutil.Cursor) bool {
 			switch x := c.Node().(type) {
 			case *ast.SelectStmt:
 				rerr = fmt.Errorf("%s: select statement in a file with channel operations is not supported", fset.Position(x.Pos()))
 			case *ast.RangeStmt:
-				// a range over a channel cannot be recognised syntactically; ranges over identifiers that
-				// were declared as channels are not present in this code base
+				// 'for range ch { body }' over a field/variable declared with a channel type in this file
+				// becomes 'for { if _, ok := ch.Recv2(); !ok { break }; body }'
+				if isChanExpr(x.X) {
+					if x.Key != nil || x.Value != nil {
+						rerr = fmt.Errorf("%s: range over a channel with a loop variable is not supported", fset.Position(x.Pos()))
+						return true
+					}
+					recv := &ast.IfStmt{
+						Init: &ast.AssignStmt{Lhs: []ast.Expr{ast.NewIdent("_"), ast.NewIdent("ok")}, Tok: token.DEFINE,
+							Rhs: []ast.Expr{&ast.CallExpr{Fun: &ast.SelectorExpr{X: x.X, Sel: ast.NewIdent("Recv2")}}}},
+						Cond: &ast.UnaryExpr{Op: token.NOT, X: ast.NewIdent("ok")},
+						Body: &ast.BlockStmt{List: []ast.Stmt{&ast.BranchStmt{Tok: token.BREAK}}},
+					}
+					c.Replace(&ast.ForStmt{Body: &ast.BlockStmt{List: append([]ast.Stmt{recv}, x.Body.List...)}})
+					n++
+				}
 			case *ast.ChanType:
 				c.Replace(chanTypeOf(x.Value))
 				usedShim = true
